@@ -1,9 +1,10 @@
 SPECIFICATION Spec
 CONSTANTS Mode = "vec"
           Alpha = "quick"
-          MaxLen = 3
+          Lens = {0, 1, 2, 3}
           SmallAlpha = "core"
-          CoreLen = 4
+          SmallLens = {4}
+          Lattice = TRUE
           AsWritten = FALSE
 INVARIANTS Link RoundTrip WfAccepted PrefixClosed SkipUnknown LastWins
 CHECK_DEADLOCK FALSE
